@@ -57,6 +57,129 @@ def classify_duration_path(prog, bi, path, is_input):
     return "+".join(labels) if labels else "?"
 
 
+def _value_expr(bi, operand, is_input, depth=0):
+    """shape of an integer expression over the input: ("input",) | ("const", c) | ("max"|"min", expr, c) | ("clamp", expr, a, b)
+    | ("cast", expr, from, to) | None"""
+    if depth > 8:
+        return None
+    if operand.const_int() is not None:
+        return ("const", operand.const_int())
+    o = bi.trace(operand)
+    if is_input(o):
+        return ("input",)
+    if o.kind == "const" and isinstance(o.data, str):
+        return None
+    if o.kind == "cast" and not o.path:
+        st = bi.stmt(*o.data)
+        inner = _value_expr(bi, st.rv.ops[0], is_input, depth + 1)
+        if inner is None:
+            return None
+        return ("cast", inner, bi.body.ty(st.rv.j["from"]), bi.body.ty(st.rv.j["to"]))
+    if o.kind == "call" and not o.path:
+        t = bi.call_at(o.data)
+        n = t.callee.path.split("::")[-1] if t.callee is not None else ""
+        if n in ("max", "min") and len(t.args) == 2 and "Ord" in t.callee.path:
+            for x, y in ((t.args[0], t.args[1]), (t.args[1], t.args[0])):
+                c = _const_of(bi, y)
+                e = _value_expr(bi, x, is_input, depth + 1)
+                if c is not None and e is not None:
+                    return (n, e, c)
+        if n == "clamp" and len(t.args) == 3:
+            e = _value_expr(bi, t.args[0], is_input, depth + 1)
+            a, b = _const_of(bi, t.args[1]), _const_of(bi, t.args[2])
+            if e is not None and a is not None and b is not None:
+                return ("clamp", e, a, b)
+    return None
+
+
+def _const_of(bi, operand):
+    if operand.const_int() is not None:
+        return operand.const_int()
+    o = bi.trace(operand)
+    if o.kind == "const" and not o.path:
+        try:
+            return int(o.data)
+        except (TypeError, ValueError):
+            c = bi.facts.consts.get(o.data) if isinstance(o.data, str) else None
+            if c is not None and "int" in c:
+                return int(c["int"])
+    return None
+
+
+def _pieces(expr, lo, hi):
+    """[(lo, hi, ("const", c) | ("input",) | ("lossy", from, to))] of expr over input in [lo, hi]"""
+    if lo > hi:
+        return []
+    k = expr[0]
+    if k in ("const", "input"):
+        return [(lo, hi, expr)]
+    if k == "cast":
+        out = []
+        tlo, thi = INT_RANGES.get(expr[3], (None, None))
+        for (a, b, e) in _pieces(expr[1], lo, hi):
+            if e[0] == "input" and tlo is not None and not (tlo <= a and b <= thi):
+                out.append((a, b, ("lossy", expr[2], expr[3])))
+            else:
+                out.append((a, b, e))
+        return out
+    if k in ("max", "min", "clamp"):
+        out = []
+        for (a, b, e) in _pieces(expr[1], lo, hi):
+            if e[0] != "input":
+                if e[0] == "const":
+                    v = e[1]
+                    if k == "max":
+                        v = max(v, expr[2])
+                    elif k == "min":
+                        v = min(v, expr[2])
+                    else:
+                        v = min(max(v, expr[2]), expr[3])
+                    out.append((a, b, ("const", v)))
+                else:
+                    out.append((a, b, e))
+                continue
+            if k == "max":
+                c = expr[2]
+                out += [(a, min(b, c), ("const", c)), (max(a, c + 1), b, ("input",))]
+            elif k == "min":
+                c = expr[2]
+                out += [(a, min(b, c - 1), ("input",)), (max(a, c), b, ("const", c))]
+            else:
+                c1, c2 = expr[2], expr[3]
+                out += [(a, min(b, c1), ("const", c1)), (max(a, c1 + 1), min(b, c2 - 1), ("input",)), (max(a, c2), b, ("const", c2))]
+        return [(a, b, e) for (a, b, e) in out if a <= b]
+    return [(lo, hi, ("?",))]
+
+
+def duration_items(prog, bi, path, is_input):
+    """[(lo, hi, label)] of one path of a seconds -> duration guard.  Like classify_duration_path, but the argument of
+    Duration::from_*() may be built with max / min / clamp (`raw.max(10)`, `raw.min(600)`): the path's interval is
+    split where the expression switches between the input and the constant."""
+    body = bi.body
+    for bb in path.blocks:
+        t = body.blocks[bb].term
+        if t.k == "call" and t.callee is not None and t.callee.path.startswith("std::time::Duration::from_") and t.args and t.args[0].const_int() is None:
+            e = _value_expr(bi, t.args[0], is_input)
+            if e is None or e == ("input",) or (e[0] == "cast" and e[1] == ("input",)):
+                break     # the plain forms are classify_duration_path's
+            unit = t.callee.path.split("::")[-1]
+            base = classify_duration_path(prog, bi, path, is_input)
+            other = [x for x in base.split("+") if not x.startswith("Some(%s" % unit)]
+            items = []
+            for (a, b, pe) in _pieces(e, path.lo, path.hi):
+                if pe[0] == "const":
+                    lab = "Some(%s %d)" % (unit, pe[1])
+                elif pe[0] == "input":
+                    lab = "Some(%s input)" % unit
+                elif pe[0] == "lossy":
+                    lab = "Some(%s input LOSSY %s->%s)" % (unit, pe[1], pe[2])
+                else:
+                    lab = "Some(%s ?)" % unit
+                items.append((a, b, "+".join(other + [lab])))
+            return items
+    return [(path.lo, path.hi, classify_duration_path(prog, bi, path, is_input))]
+
+
 @rule("C05", "R05.1", "seconds -> action partition: <0 rejected, 0 nack, 1..599 that many seconds, >=600 capped at 600", floor=1)
 def r05_1(prog, out):
     parsers = find_seconds_parser(prog)
@@ -74,7 +197,7 @@ def r05_1(prog, out):
             continue
         items = []
         for p in paths:
-            items.append((p.lo, p.hi, classify_duration_path(prog, bi, p, is_input)))
+            items.extend(duration_items(prog, bi, p, is_input))
         got = merge_partition(items)
         diffs = compare_partitions(got, expected, secs_point_equiv)
         if not diffs:
@@ -210,10 +333,19 @@ def r05_3(prog, out):
                 continue
             o = bi.trace(inst[0])
             if o.kind == "call" and bi.call_at(o.data).callee.path == "tokio::time::Instant::now":
-                out.holds(key, bi.loc(bb), "reference time is Instant::now() taken in the handler")
+                # "the time of the call": taken for this request, i.e. inside every loop the parse sits in (a stream body
+                # handles one control message per iteration; a clock read before the loop is the time the stream was opened)
+                if set(bi.cfg.in_loop(bb)) <= set(bi.cfg.in_loop(o.data)):
+                    out.holds(key, bi.loc(bb), "reference time is Instant::now() taken in the handler, for this request")
+                else:
+                    out.violation(key, bi.loc(o.data), "the reference time is read once, outside the loop that handles the requests: every new deadline is "
+                                  "(time the stream was opened) + N instead of (time of the call) + N")
             else:
                 s = sl.of(bid, inst[0])
-                if "tokio::time::Instant::now" in s.calls and not (s.calls - {"tokio::time::Instant::now"}):
+                if o.kind in ("upvar", "param", "env") and bi.cfg.in_loop(bb):
+                    out.violation(key, bi.loc(bb), "the reference time is a value captured / passed in before the loop that handles the requests started: every new "
+                                  "deadline is (time the stream was opened) + N instead of (time of the call) + N")
+                elif "tokio::time::Instant::now" in s.calls and not (s.calls - {"tokio::time::Instant::now"}):
                     out.holds(key, bi.loc(bb), "reference time is Instant::now()")
                 else:
                     out.violation(key, bi.loc(bb), "reference time of the new deadline is not the time of the call (%r; %s)" % (o, sorted(c.split('::')[-1] for c in s.calls)[:4]))
